@@ -509,7 +509,7 @@ fn cmd_check(engine: &dyn Engine, prop: &str, tier: Tier, known: &Known) -> i32 
     let replay_dir = verif_root().join("replays");
     let _ = std::fs::create_dir_all(&replay_dir);
     for (sig, (idx, tape, v)) in own.iter().take(4) {
-        let deadline = Instant::now() + Duration::from_secs(60);
+        let deadline = Instant::now() + Duration::from_secs(90);
         let target_sig = sig.clone();
         let is_extra = *idx == u64::MAX;
         let (min_tape, execs) = if is_extra {
@@ -521,7 +521,7 @@ fn cmd_check(engine: &dyn Engine, prop: &str, tier: Tier, known: &Known) -> i32 
                     let (o, _) = exec_run(engine, &spec.profile, tier, Tape::replay(cand.to_vec()), false, known);
                     o.violation.as_ref().is_some_and(|vv| vv.property == prop && vv.signature == target_sig)
                 },
-                3000,
+                6000,
                 deadline,
             )
         };
